@@ -549,6 +549,9 @@ CONTAINER_FUNCS = {"list", "tuple", "set", "frozenset", "dict", "sorted", "rever
 CONSTRUCTORS = {"scipy.sparse.coo_matrix", "scipy.sparse.csr_matrix", "scipy.sparse.csc_matrix",
                 "scipy.sparse.coo_array", "scipy.sparse.csr_array", "scipy.sparse.csc_array",
                 "defaultdict", "deque", "OrderedDict"}
+# reductions are methods of the sparse classes too: their results come from the return summaries, not from the
+# ndarray table, so that a reduction returning its receiver is seen where the library writes into the result
+REDUCTION_NAMES = {"sum", "max", "min", "prod", "mean", "var", "std", "any", "all", "reduce"}
 CTOR_SELF = {"__init__", "__new__", "__setstate__", "__init_subclass__"}
 
 
@@ -1213,7 +1216,7 @@ class Analyzer:
             cont = name in CONTAINER_FUNCS
             kind = "container" if cont else ("index" if name in INDEX_PRODUCERS else None)
             return AV(every_b), AV(every_o), kind
-        if recv is not None:
+        if recv is not None and not (meth in REDUCTION_NAMES and self.G.by_name.get(meth)):
             if meth in FRESH_METHODS:
                 shallow = (meth == "copy" and (recv[2] == "container"
                                                or any(k[0] == "deep" for k in kws) or args))
@@ -1531,6 +1534,56 @@ def dense_result_alias(G):
     return out
 
 
+PASS_THROUGH = {"astype", "asformat", "reshape", "transpose", "view", "squeeze", "change_compressed_axes", "flatten",
+                "tocoo", "copy_shallow"}     # methods that may hand back their receiver (or share its buffers)
+CREATORS = {"reduce", "reduceat", "_grouped_reduce", "accumulate"}
+
+
+def reduce_calc_returns(G):
+    """every `return` of every _reduce_calc of a sparse class: is the first element of the returned tuple (the
+    reduced array / data) certainly a newly computed value — it goes through a ufunc reduce/reduceat or a recursive
+    .reduce(...) — rather than the receiver or something a pass-through method derives from it?"""
+    out = []
+
+    def fresh(e, fn, depth=0):
+        if depth > 6:
+            return False
+        if isinstance(e, ast.IfExp):
+            return fresh(e.body, fn, depth + 1) and fresh(e.orelse, fn, depth + 1)
+        if isinstance(e, ast.Subscript):
+            return fresh(e.value, fn, depth + 1)
+        if isinstance(e, ast.Call):
+            f = e.func
+            nm = f.attr if isinstance(f, ast.Attribute) else (f.id if isinstance(f, ast.Name) else None)
+            if nm in CREATORS:
+                return True
+            if isinstance(f, ast.Attribute):         # any other method: as fresh as its receiver
+                return fresh(f.value, fn, depth + 1)
+            return False
+        if isinstance(e, ast.Name):
+            if e.id == "self":
+                return False
+            defs = []
+            for n in ast.walk(fn):
+                if isinstance(n, ast.Assign):
+                    for t in n.targets:
+                        if isinstance(t, ast.Name) and t.id == e.id:
+                            defs.append(n.value)
+                        elif isinstance(t, ast.Tuple) and any(isinstance(x, ast.Name) and x.id == e.id for x in t.elts):
+                            defs.append(n.value)
+            return bool(defs) and all(fresh(d, fn, depth + 1) for d in defs)
+        return False
+    for r in G.recs:
+        if r.cls in G.sparse_classes and r.name == "_reduce_calc":
+            rets = [n for n in ast.walk(r.node) if isinstance(n, ast.Return)]
+            for n in rets:
+                if not (isinstance(n.value, ast.Tuple) and n.value.elts):
+                    out.append((r.qual, ast.unparse(n)[:70], False))
+                else:
+                    out.append((r.qual, ast.unparse(n)[:70], fresh(n.value.elts[0], r.node)))
+    return out
+
+
 def extract_todense_alloc(repo):
     """COO.todense allocates its result with np.full(...) as its first statement and every return returns that name"""
     tree = ast.parse(open(os.path.join(repo, CORE)).read())
@@ -1612,6 +1665,7 @@ def gen_alias(repo):
     disc = extract_scipy_discipline(G)
     dra = dense_result_alias(G)
     tda = extract_todense_alloc(repo)
+    rcr = reduce_calc_returns(G)
     L.append("")
     L.append("(* scipy's in-place methods are only ever applied to a private copy made just before: (function, call, ok) *)")
     for q, call, ok in disc:
@@ -1624,6 +1678,12 @@ def gen_alias(repo):
              + "; ".join(f"({coq_str(q)}, {coq_bool(a)})" for q, a in dra) + "].")
     for k, v in tda.items():
         L.append(f"Definition {k} : bool := {coq_bool(v)}.")
+    L.append("")
+    L.append("(* every return of every _reduce_calc: the reduced array is newly computed, never the receiver *)")
+    for q, txt, ok in rcr:
+        L.append(f"(*   {q}: {txt.replace('(*', '( *').replace('*)', '* )')}  {'fresh' if ok else 'MAY BE THE RECEIVER'} *)")
+    L.append("Definition reduce_calc_returns_fresh : list (string * bool) := ["
+             + "; ".join(f"({coq_str(q + ': ' + txt)}, {coq_bool(ok)})" for q, txt, ok in rcr) + "].")
     n_writes = sum(len(r.write_info) for r, _ in obligations)
     rejected = {q: d["rejected_writes"] for q, d in rep_funcs.items() if d["rejected_writes"]}
     rep = {"effect_summaries": {"status": "ok", "functions": len(obligations), "helpers": len(helpers),
@@ -1632,6 +1692,7 @@ def gen_alias(repo):
                                 "api_classes": G.sparse_classes, "out_protocol": outp,
                                 "scipy_inplace_sites": [list(x) for x in disc],
                                 "dense_result_may_alias": [list(x) for x in dra], "todense_alloc": tda,
+                                "reduce_calc_returns": [list(x) for x in rcr],
                                 "calls_into_param_writing_functions_outside_anchored_files": foreign}}
     return "\n".join(L) + "\n", rep
 
